@@ -296,37 +296,36 @@ WatchInputs == {<<It("attr", a, "-", "-", "-"), It("attr", b, "-", "-", "-"), It
 Scn(fam, ep, mode, items, fin, cut) ==
   [fam |-> fam, ep |-> ep, mode |-> mode, items |-> items, fin |-> fin, cut |-> cut]
 
-FrameScns ==
-  {Scn("frame", ep, m, inp, "eof", FALSE) :
-      ep \in FrameEPs, m \in Modes, inp \in UNION {FrameInputs(mm) : mm \in Modes}}
-FrameScnsOK == {s \in FrameScns : \A i \in 1..Len(s.items) : (s.items[i].p = "-") = (s.mode = "plain")}
-
-PassScns == {Scn("pass", "PassSockHeader", "plain", inp, "eof", FALSE) : inp \in PassInputs}
-
-ProgScnsOf(fam, eps, modes) ==
-  UNION {{Scn(fam, ep, m, inp, fin, cut) :
-            inp \in ProgInputs(ep, m), fin \in {"eom", "eof"}, cut \in BOOLEAN} :
-         ep \in eps, m \in modes}
 \* the last item can only be cut if there is one; cut + eof is covered by eom + cut
 ProgOK(s) == (s.cut => Len(s.items) > 0 /\ s.fin = "eom")
              /\ (s.ep = "GetBytes" => Len(s.items) > 0)   \* the length is an API argument
              /\ \A i \in 1..Len(s.items) :   \* an unterminated string runs to the end of input
                   (s.items[i].k = "str" /\ s.items[i].t = "F") => i = Len(s.items)
 
-BlobScns == {Scn("blob", "NewStreamWithCryptoState", "plain", inp, fin, FALSE) :
-               inp \in BlobInputs, fin \in {"exact", "extra"}}
-TextScns == UNION {{Scn("text", ep, "plain", inp, "-", FALSE) : inp \in TextInputs(ep)} : ep \in TextEPs}
-WatchScns == {Scn("watch", ep, "plain", inp, "-", FALSE) : ep \in WatchEPs, inp \in WatchInputs}
+\* IsScenario(x): x is one of the scenarios of the configured families.  Written as
+\* nested quantifiers (not as one big set) so that TLC enumerates it cheaply.
+ProgScenario(x, fam, eps, modes) ==
+  \E ep \in eps, m \in modes :
+    \E inp \in ProgInputs(ep, m), fin \in {"eom", "eof"}, cut \in BOOLEAN :
+      /\ ProgOK(Scn(fam, ep, m, inp, fin, cut))
+      /\ x = Scn(fam, ep, m, inp, fin, cut)
 
-Scenarios ==
-  (IF "frame" \in Families THEN FrameScnsOK ELSE {}) \cup
-  (IF "pass"  \in Families THEN PassScns ELSE {}) \cup
-  (IF "typed" \in Families THEN {s \in ProgScnsOf("typed", TypedEPs, Modes) : ProgOK(s)} ELSE {}) \cup
-  (IF "ad"    \in Families THEN {s \in ProgScnsOf("ad", AdEPs, Modes) : ProgOK(s)} ELSE {}) \cup
-  (IF "hs"    \in Families THEN {s \in ProgScnsOf("hs", HsEPs, {"plain"}) : ProgOK(s)} ELSE {}) \cup
-  (IF "blob"  \in Families THEN BlobScns ELSE {}) \cup
-  (IF "text"  \in Families THEN TextScns ELSE {}) \cup
-  (IF "watch" \in Families THEN WatchScns ELSE {})
+IsScenario(x) ==
+  \/ /\ "frame" \in Families
+     /\ \E ep \in FrameEPs, m \in Modes : \E inp \in FrameInputs(m) :
+          x = Scn("frame", ep, m, inp, "eof", FALSE)
+  \/ /\ "pass" \in Families
+     /\ \E inp \in PassInputs : x = Scn("pass", "PassSockHeader", "plain", inp, "eof", FALSE)
+  \/ "typed" \in Families /\ ProgScenario(x, "typed", TypedEPs, Modes)
+  \/ "ad" \in Families /\ ProgScenario(x, "ad", AdEPs, Modes)
+  \/ "hs" \in Families /\ ProgScenario(x, "hs", HsEPs, {"plain"})
+  \/ /\ "blob" \in Families
+     /\ \E inp \in BlobInputs, fin \in {"exact", "extra"} :
+          x = Scn("blob", "NewStreamWithCryptoState", "plain", inp, fin, FALSE)
+  \/ /\ "text" \in Families
+     /\ \E ep \in TextEPs : \E inp \in TextInputs(ep) : x = Scn("text", ep, "plain", inp, "-", FALSE)
+  \/ /\ "watch" \in Families
+     /\ \E ep \in WatchEPs, inp \in WatchInputs : x = Scn("watch", ep, "plain", inp, "-", FALSE)
 
 -----------------------------------------------------------------------------
 VARIABLES
@@ -344,7 +343,7 @@ VARIABLES
 vars == <<scn, pc, ii, lastv, left, budget, consumed, alloc, steps, depth, status, strict, capx>>
 
 Init ==
-  /\ scn \in Scenarios
+  /\ IsScenario(scn)
   /\ pc = 1 /\ ii = 1 /\ lastv = 0 /\ left = 0 /\ budget = CapU
   /\ consumed = 0 /\ alloc = 0 /\ steps = 0 /\ depth = 1
   /\ status = "run" /\ strict = FALSE /\ capx = FALSE
